@@ -415,7 +415,7 @@ def gen_block(block: dict[str, Any]) -> Any:
                                                                 ["s", None, None, -1]]}
     elif kind == "reshape":
         for old, new in block["pairs"]:
-            for order in ("C", "F"):
+            for order in ("C", "F", "c", "f"):
                 yield {"kind": "reshape", "old": list(old), "new": list(new),
                        "order": order}
     elif kind == "roll":
